@@ -616,7 +616,8 @@ func fSameDirective(x, y ast.Directive) {
 	case ast.CommodityDirective:
 		b, ok := y.(ast.CommodityDirective)
 		zzverif.Assert(ok, "C04: a directive changes kind")
-		zzverif.Assert(a.Commodity.Symbol == b.Commodity.Symbol && a.Format == b.Format && a.Note == b.Note, "C04: a commodity directive changes")
+		zzverif.Assert(a.Commodity.Symbol == b.Commodity.Symbol && fTrimBlanks(a.Format) == fTrimBlanks(b.Format) && fTrimBlanks(a.Note) == fTrimBlanks(b.Note),
+			"C04: a commodity directive changes")
 		fSameSubdirs(a.Subdirs, b.Subdirs)
 	case ast.PriceDirective:
 		b, ok := y.(ast.PriceDirective)
@@ -628,7 +629,8 @@ func fSameDirective(x, y ast.Directive) {
 		zzverif.Assert(ok && a.Year == b.Year, "C04: a year directive changes")
 	case ast.DefaultCommodityDirective:
 		b, ok := y.(ast.DefaultCommodityDirective)
-		zzverif.Assert(ok && a.Symbol == b.Symbol && a.Format == b.Format, "C04: a default commodity directive changes")
+		// (the parser keeps the trailing blanks of the line in Format)
+		zzverif.Assert(ok && a.Symbol == b.Symbol && fTrimBlanks(a.Format) == fTrimBlanks(b.Format), "C04: a default commodity directive changes")
 	default:
 		zzverif.Assert(false, "harness: unexpected directive type")
 	}
